@@ -7,6 +7,7 @@ import (
 	"os"
 	"strings"
 	"testing"
+	"unicode"
 
 	"gopkg.in/yaml.v3"
 	"pgregory.net/rapid"
@@ -526,6 +527,48 @@ func TestC11(t *testing.T) {
 			}
 		}
 		col.Label("edited-valid-forms")
+		c11Eval(rt, c11Case{Position: p.name, Candidates: cands})
+	})
+
+	// (b2) valid forms with one ASCII letter replaced by a non-ASCII letter that looks like, folds to, or normalises to an
+	// ASCII letter (Kelvin sign, long s, dotless i, Cyrillic and full-width look-alikes, ligatures, combining marks)
+	setRapidChecks(pick(150, 1500))
+	lookAlikes := []rune{'\u212a', '\u017f', '\u212a', '\u017f', '\u0131', '\u0130', '\u0430', '\u0410', '\uff21', '\uff41', '\u00df', '\u01c5', '\u00e9', '\u0301', '\u200b', '\u00a0', '\u0660', '\uff11'}
+	rapid.Check(t, func(rt *rapid.T) {
+		p := positions[rapid.IntRange(0, len(positions)-1).Draw(rt, "position")]
+		n := 1
+		if !p.single {
+			n = rapid.IntRange(1, 20).Draw(rt, "n")
+		}
+		seen := map[string]bool{}
+		var cands []string
+		for i := 0; i < n; i++ {
+			r := []rune(genValidForm(rt, p.name))
+			var at []int
+			for j, c := range r {
+				if c < 0x80 && (unicode.IsLetter(c) || unicode.IsDigit(c)) {
+					at = append(at, j)
+				}
+			}
+			if len(at) == 0 {
+				continue
+			}
+			j := at[rapid.IntRange(0, len(at)-1).Draw(rt, "at")]
+			la := rapid.SampledFrom(lookAlikes).Draw(rt, "lookalike")
+			if rapid.Bool().Draw(rt, "insert") {
+				r = append(r[:j+1:j+1], append([]rune{la}, r[j+1:]...)...)
+			} else {
+				r[j] = la
+			}
+			if s := string(r); !seen[s] {
+				seen[s] = true
+				cands = append(cands, s)
+			}
+		}
+		if len(cands) == 0 {
+			return
+		}
+		col.Label("non-ascii-look-alike-letters")
 		c11Eval(rt, c11Case{Position: p.name, Candidates: cands})
 	})
 
